@@ -6,6 +6,7 @@ require (
 	github.com/onflow/atree v0.16.1
 	github.com/onflow/cadence v0.0.0
 	go.opentelemetry.io/otel v1.38.0
+	golang.org/x/text v0.31.0
 )
 
 require (
@@ -33,7 +34,6 @@ require (
 	github.com/zeebo/blake3 v0.2.4 // indirect
 	golang.org/x/exp v0.0.0-20240103183307-be819d1f06fc // indirect
 	golang.org/x/sys v0.38.0 // indirect
-	golang.org/x/text v0.31.0 // indirect
 	golang.org/x/xerrors v0.0.0-20240903120638-7835f813f4da // indirect
 	gopkg.in/yaml.v3 v3.0.1 // indirect
 )
